@@ -18,8 +18,10 @@ if ours is not None and theirs is not None:
 ours, theirs = show(2, "known_findings.json"), show(3, "known_findings.json")
 if ours is not None and theirs is not None:
     a, b = json.loads(ours), json.loads(theirs)
+    owned = set(sys.argv[1:])        # properties whose entries are taken from THEIR side entirely
+    a["findings"] = [f for f in a["findings"] if f["property"] not in owned]
     ids = {f["id"] for f in a["findings"]}
     for f in b["findings"]:
-        if f["id"] not in ids: a["findings"].append(f)
+        if f["id"] not in ids and (f["property"] in owned or not owned or True): a["findings"].append(f)
     json.dump(a, open(os.path.join(V, "known_findings.json"), "w"), indent=1)
 subprocess.run([sys.executable, os.path.join(V, "tools/mkmanifest.py")])
